@@ -229,6 +229,10 @@ func runC17(a vh.Args, o *vh.Oracle, r *vh.Result) error {
 	if a.Tier == "thorough" {
 		blobs = 150
 	}
+	race := a.Tier == "race" // the reduced family run under the race detector: several workers, few cases
+	if race {
+		blobs = 3
+	}
 	for bi := 0; bi < blobs; bi++ {
 		size := []int{0, 1, 7, 100, 1000, 5000, 20000}[rng.Intn(7)] + rng.Intn(50)
 		if bi == 0 {
@@ -398,6 +402,9 @@ func runC17(a vh.Args, o *vh.Oracle, r *vh.Result) error {
 				return err
 			}
 		}
+	}
+	if race {
+		return nil
 	}
 	if err := c17Cancel(a, r, rng); err != nil {
 		return err
